@@ -329,6 +329,72 @@ func runC14(c *core.Ctx) {
 			}
 		}
 	}
+	// process time zones in which a written date or time of day does not exist (clocks jump forward at midnight, or
+	// the written hour is skipped): the printed log carries the days as written and reads back (round 12, K14:
+	// headings read in the process zone move a day that starts inside the gap to the day before)
+	if !c.InChild() && c.HR != "" {
+		for zi, zc := range []struct {
+			zone   string
+			day    gen.Date
+			layout string
+			head   []string // headings as written, in file order
+		}{
+			{"America/Santiago", gen.Date{Y: 2022, M: 9, D: 11}, "2006/01/02", nil},
+			{"America/Havana", gen.Date{Y: 2022, M: 3, D: 13}, "2006/01/02", nil},
+			{"Asia/Beirut", gen.Date{Y: 2022, M: 3, D: 27}, "2006/01/02", nil},
+			{"America/Sao_Paulo", gen.Date{Y: 2018, M: 11, D: 4}, "2006/01/02", nil},
+			{"Africa/Cairo", gen.Date{Y: 2014, M: 5, D: 16}, "2006-01-02", nil},
+			{"UTC", gen.Date{Y: 2022, M: 3, D: 13}, "2006/01/02", nil},
+			{"Europe/Berlin", gen.Date{}, "2006/01/02 15:04", []string{"2021/03/28 01:59", "2021/03/28 02:30", "2021/03/28 03:00", "2021/10/31 02:30"}},
+			{"America/Los_Angeles", gen.Date{}, "2006-01-02 15:04:05", []string{"2022-03-13 01:59:59", "2022-03-13 02:00:00", "2022-03-13 02:59:59", "2022-11-06 01:30:00"}},
+			{"Australia/Lord_Howe", gen.Date{}, "2006/01/02 15:04", []string{"2021/10/03 01:59", "2021/10/03 02:15", "2021/10/03 02:30"}},
+		} {
+			if _, err := os.Stat("/usr/share/zoneinfo/" + zc.zone); err != nil {
+				continue
+			}
+			heads := zc.head
+			if heads == nil {
+				for off := -1; off <= 1; off++ {
+					heads = append(heads, zc.day.AddDays(off).Format(zc.layout))
+				}
+			}
+			var sb strings.Builder
+			for k, h := range heads {
+				fmt.Fprintf(&sb, "%s:\n  tea, green: 1.5\n  day%d: 2\n", h, k)
+			}
+			files := map[string]string{"log.yaml": sb.String()}
+			dir := fmt.Sprintf("%s/gap%d", c.Work, zi)
+			run.WriteFiles(dir, files)
+			args := []string{"--no-color", "--date-format", zc.layout, "-l", "log.yaml", "print"}
+			env := map[string]string{"TZ": zc.zone}
+			p1 := run.Exec(c.HR, args, run.ExecOpts{Dir: dir, Env: env})
+			c.Eval(1)
+			c.Count("print_in_zones_where_the_written_time_does_not_exist", 1)
+			c.Nontrivial("gap", zc.zone, zc.layout)
+			var got []string
+			for _, ln := range strings.Split(p1.Out, "\n") {
+				if ln != "" && ln[0] != ' ' && ln[0] != '\t' && ln[0] != '-' && strings.HasSuffix(ln, ":") {
+					got = append(got, strings.TrimSuffix(ln, ":"))
+				}
+			}
+			bad := ""
+			if p1.Exit != 0 {
+				bad = fmt.Sprintf("exit %d %s", p1.Exit, clip(p1.Serr, 120))
+			} else if strings.Join(got, "|") != strings.Join(heads, "|") {
+				bad = fmt.Sprintf("printed headings %q, the log has %q", got, heads)
+			} else {
+				run.WriteFiles(dir, map[string]string{"printed.yaml": p1.Out})
+				p2 := run.Exec(c.HR, []string{"--no-color", "--date-format", zc.layout, "-l", "printed.yaml", "print"}, run.ExecOpts{Dir: dir, Env: env})
+				c.Eval(1)
+				if p2.Exit != 0 || p2.Out != p1.Out {
+					bad = fmt.Sprintf("the printed log does not print to itself (exit %d)", p2.Exit)
+				}
+			}
+			if bad != "" {
+				c.Violation("print|days-depend-on-time-zone", fmt.Sprintf("TZ=%s layout %q: %s", zc.zone, zc.layout, bad), caseDoc{Files: files, Args: args, Env: env, Observed: resDoc(p1)})
+			}
+		}
+	}
 	// selection by instants that differ only in the fraction of a second (shared with C06)
 	c06SubSecond(c, [][]string{{"print"}})
 	jobs, deaths := pool.Stats()
